@@ -36,7 +36,7 @@ ASSUMPTIONS = [
     "weights are ints or dyadic rationals (exact in floats) except in the 'approx' cases (multiples of 0.1), "
     "which are compared with 1e-9 relative tolerance",
     "a Rust-side endless loop or abort is detected by running the rust jobs of every case first in a forked child "
-    "(wall-clock limit 20 s, address-space limit); the fuel meter cannot see native code",
+    "(limit 5 s of the child's CPU time, 2 GB address space); the fuel meter cannot see native code",
     "iterations/evaluations and undocumented objectives are metadata",
 ]
 STRATA = [
@@ -72,7 +72,8 @@ _fn = {}
 _kcount = {}
 _problem = None
 _O = None
-PREFLIGHT_WALL_S = 8.0  # the rust jobs of a case take milliseconds
+PREFLIGHT_CPU_S = 5.0  # the rust jobs of a case take milliseconds of CPU
+PREFLIGHT_WALL_S = 120.0  # only for a child that neither finishes nor burns CPU
 PREFLIGHT_AS_BYTES = 2 << 30
 RUST_PATH_BUDGET = 400_000  # Python steps of an adapter (path/dict conversion of <= 400 nodes); the kernel is native
 PY_PATH_BUDGET = 30_000_000
@@ -523,17 +524,27 @@ def _preflight(case_jobs):
             os._exit(code)
     t0 = time.time()
     delay = 0.0005
+    tick = os.sysconf("SC_CLK_TCK")
     while True:
         got, status = os.waitpid(pid, os.WNOHANG)
         if got == pid:
             break
-        if time.time() - t0 > PREFLIGHT_WALL_S:
+        wall = time.time() - t0
+        if wall > 1.0:
+            # judged on the child's own CPU time, so a loaded machine cannot cause an accusation
             try:
-                os.kill(pid, signal.SIGKILL)
-            except OSError:
-                pass
-            os.waitpid(pid, 0)
-            return ("rust.no-return", f"rust back-end did not return within {PREFLIGHT_WALL_S}s wall clock (forked pre-flight)")
+                f = open(f"/proc/{pid}/stat").read().rsplit(")", 1)[1].split()
+                cpu = (int(f[11]) + int(f[12])) / tick
+            except Exception:
+                cpu = wall
+            if cpu > PREFLIGHT_CPU_S or wall > PREFLIGHT_WALL_S:
+                try:
+                    os.kill(pid, signal.SIGKILL)
+                except OSError:
+                    pass
+                os.waitpid(pid, 0)
+                return ("rust.no-return", f"rust back-end did not return after {cpu:.1f}s CPU / {wall:.1f}s wall "
+                                          f"(forked pre-flight; such calls take milliseconds)")
         time.sleep(delay)
         delay = min(delay * 2, 0.05)
     if os.WIFSIGNALED(status):
